@@ -1247,6 +1247,70 @@ pub fn plant(base: &AppSpec, rule: usize, raw: u16) -> Option<Planted> {
             nontrivial = needed.iter().find(|(x, _)| *x == t).is_some_and(|(_, d)| *d >= 2);
             what = format!("T{t} is registered clone-if-necessary but does not implement Clone");
         }
+        11 if raw % 3 == 0 => {
+            // the same rule across scopes: an observer registered in the root blueprint borrows a value whose
+            // constructor is infallible there, and a nested blueprint (with a route that the observer
+            // applies to) registers a *fallible* constructor for the same type
+            let obs_root: Vec<usize> = spec
+                .bp
+                .iter()
+                .filter_map(|r| match r {
+                    Reg::Comp { idx } if spec.comps[*idx].kind == CompKind::Observer => Some(*idx),
+                    _ => None,
+                })
+                .collect();
+            let cands: Vec<usize> = (0..spec.types.len())
+                .filter(|t| {
+                    let ty = &spec.types[*t];
+                    ty.life == Life::Request && ty.variants == 1 && ty.fallible.is_none() && !ty.prebuilt && ty.view_of.is_none() && !crate::model::closure(&spec, &ty.inputs).iter().any(|u| spec.types[*u].fallible.is_some() && spec.types[*u].life != Life::Singleton)
+                        && !spec.comps.iter().any(|c| c.inputs.iter().any(|(x, m)| x == t && *m != Mode::Ref))
+                        && !spec.types.iter().any(|u| u.inputs.iter().any(|(x, m)| x == t && *m != Mode::Ref))
+                })
+                .collect();
+            if cands.is_empty() || spec.n_errs == 0 {
+                return None;
+            }
+            let t = cands[(raw as usize / 3) % cands.len()];
+            // a nested blueprint that holds a route directly (made from the last root route if there is none)
+            let has_route = |bp: &Vec<Reg>, spec: &AppSpec| bp.iter().any(|x| matches!(x, Reg::Comp { idx } if spec.comps[*idx].kind == CompKind::Handler));
+            let mut ni = spec.bp.iter().rposition(|r| matches!(r, Reg::Nest { bp, .. } if has_route(bp, &spec)));
+            if ni.is_none() {
+                let pos = spec.bp.iter().rposition(|r| matches!(r, Reg::Comp { idx } if spec.comps[*idx].kind == CompKind::Handler && !spec.comps[*idx].route.as_ref().is_some_and(|r| r.bulk)))?;
+                let r = spec.bp.remove(pos);
+                spec.bp.push(Reg::Nest { prefix: Some("/planted".into()), domain: None, bp: vec![r] });
+                ni = Some(spec.bp.len() - 1);
+            }
+            let ni = ni?;
+            // an observer registered in the root blueprint before that nest (a new one if there is none)
+            let o = match obs_root.iter().copied().find(|o| spec.bp.iter().position(|r| matches!(r, Reg::Comp { idx } if idx == o)).is_some_and(|p| p < ni)) {
+                Some(o) => o,
+                None => {
+                    let o = spec.comps.len();
+                    spec.comps.push(CompSpec { kind: CompKind::Observer, inputs: vec![], fallible: None, is_async: false, route: None, fw: vec![], gens: vec![] });
+                    spec.bp.insert(ni, Reg::Comp { idx: o });
+                    o
+                }
+            };
+            let ni = spec.bp.iter().rposition(|r| matches!(r, Reg::Nest { bp, .. } if has_route(bp, &spec)))?;
+            spec.types[t].variants = 2;
+            spec.types[t].v1_flip = true;
+            let mut nested_handlers = vec![];
+            if let Reg::Nest { bp, .. } = &mut spec.bp[ni] {
+                bp.insert(0, Reg::Ctor { ty: t, variant: 1 });
+                nested_handlers = bp.iter().filter_map(|x| if let Reg::Comp { idx } = x { Some(*idx) } else { None }).collect();
+            }
+            // the observer does run for the routes of that blueprint: their handlers can fail
+            for h in nested_handlers {
+                if spec.comps[h].kind == CompKind::Handler && spec.comps[h].fallible.is_none() {
+                    spec.comps[h].fallible = Some(0);
+                }
+            }
+            if !spec.comps[o].inputs.iter().any(|(x, _)| *x == t) {
+                spec.comps[o].inputs.push((t, Mode::Ref));
+            }
+            nontrivial = true;
+            what = format!("error observer x{o} (root blueprint) borrows T{t}; a nested blueprint with a route registers a fallible constructor for T{t}");
+        }
         11 => {
             let obs: Vec<usize> = comps.iter().copied().filter(|c| spec.comps[*c].kind == CompKind::Observer).collect();
             let fall: Vec<usize> = (0..spec.types.len())
@@ -1309,6 +1373,19 @@ pub fn plant(base: &AppSpec, rule: usize, raw: u16) -> Option<Planted> {
             insert_after(&mut spec.bp, h, idx);
             nontrivial = crate::model::routes(&spec).iter().any(|r| r.handler == h && r.nest_depth >= 1);
             what = format!("a second handler x{idx} answers the same path as x{h} with an overlapping method guard");
+        }
+        _ if raw % 4 == 1 => {
+            // the same rule for a middleware: it asks for typed path parameters with a field that none of
+            // the routes it applies to has in its template
+            let mws: Vec<usize> = comps.iter().copied().filter(|c| matches!(spec.comps[*c].kind, CompKind::Pre | CompKind::Post | CompKind::Wrap)).collect();
+            let wraps: Vec<usize> = mws.iter().copied().filter(|c| spec.comps[*c].kind == CompKind::Wrap).collect();
+            if mws.is_empty() {
+                return None;
+            }
+            let m = if !wraps.is_empty() && raw % 8 == 1 { wraps[choose(wraps.len())] } else { mws[choose(mws.len())] };
+            spec.comps[m].route = Some(RouteSpec { methods: vec![], path: String::new(), path_param_fields: vec!["not_in_template".into()], bulk: false });
+            nontrivial = true;
+            what = format!("middleware x{m} ({:?}) asks for PathParams with a field that is in no route template", spec.comps[m].kind);
         }
         _ => {
             let hs: Vec<usize> = comps.iter().copied().filter(|c| spec.comps[*c].kind == CompKind::Handler).collect();
@@ -1460,7 +1537,10 @@ pub fn build_stage_stress(raw: u64) -> AppSpec {
         bp.push(Reg::Comp { idx: comps.len() });
         comps.push(CompSpec { kind: CompKind::Observer, inputs: obs_inputs, fallible: None, is_async: false, route: None, fw: vec![], gens: vec![] });
     }
-    let n_mw = 3 + next() % 5;
+    // a quarter of the applications have a long chain (11-16 middlewares, mostly of one kind: two-digit positions)
+    let long = next() % 4 == 0;
+    let long_kind = next() % 2;
+    let n_mw = if long { 11 + next() % 6 } else { 3 + next() % 5 };
     let mut inputs_for = |next: &mut dyn FnMut() -> usize| {
         let mut v = vec![];
         for t in 0..3usize {
@@ -1484,12 +1564,13 @@ pub fn build_stage_stress(raw: u64) -> AppSpec {
     };
     for _ in 0..n_mw {
         let kind = match next() % 7 {
+            _ if long && next() % 8 != 0 => if long_kind == 0 { CompKind::Pre } else { CompKind::Post },
             0 | 1 | 2 => CompKind::Pre,
             3 | 4 | 5 => CompKind::Post,
             _ => CompKind::Wrap,
         };
         let is_async = kind == CompKind::Wrap || next() % 3 == 0;
-        let inputs = inputs_for(&mut next);
+        let inputs = if long && next() % 3 != 0 { vec![] } else { inputs_for(&mut next) };
         let fallible = if with_errors && next() % 3 == 0 { Some(0) } else { None };
         bp.push(Reg::Comp { idx: comps.len() });
         comps.push(CompSpec { kind, inputs, fallible, is_async, route: None, fw: vec![], gens: vec![] });
